@@ -54,6 +54,10 @@ func (x *Exec) call(fr *Frame, st *State, in ssa.CallInstruction, pos token.Pos)
 		return x.callStatic(fr, st, fv.Fn, args, fv.Bind, resT, pos)
 	}
 	fv := x.val(fr, c.Value)
+	if fv.K == KFunc && fv.Fn == nil && fv.Term != nil && x.pureFuncType(c.Value.Type()) {
+		x.safetyOblige(fr, st, "nilfunc", "call of nil func "+exprText(c.Value), Neq(fv.Term, x.null()), pos)
+		return x.pureFuncCall(fv, c.Value.Type(), args, resT)
+	}
 	if fv.K == KFunc && fv.Fn != nil {
 		x.safetyOblige(fr, st, "nilfunc", "call of nil func "+exprText(c.Value), Neq(fv.Term, x.null()), pos)
 		return x.callStatic(fr, st, fv.Fn, args, fv.Bind, resT, pos)
@@ -138,9 +142,11 @@ func (x *Exec) invoke(fr *Frame, st *State, recv *Value, m *types.Func, args []*
 		failf("invoke on non-interface")
 	}
 	x.safetyOblige(fr, st, "nil", "method call on nil interface ."+m.Name(), Neq(recv.Tag, IntLit(0)), pos)
+	x.ifaceCallSiteObligations(fr, st, recv, m, args, pos)
 	key := shortType(recv.T) + "." + m.Name()
 	full := typeKey(recv.T) + "." + m.Name()
 	if x.db.Methods[key] || x.db.Methods[full] {
+		x.accessorState = st
 		r := x.ifaceAccessor(recv, m, args)
 		if r.K == KTuple && len(r.Fields) == 0 {
 			return nil
@@ -784,6 +790,79 @@ func (x *Exec) assumeZeroOffsets(v *Value) {
 	case KStruct, KTuple:
 		for _, f := range v.Fields {
 			x.assumeZeroOffsets(f)
+		}
+	}
+}
+
+func (x *Exec) pureFuncType(t types.Type) bool {
+	n, ok := t.(*types.Named)
+	if !ok || n.Obj().Pkg() == nil {
+		return false
+	}
+	return x.db.FuncTypes[n.Obj().Pkg().Name()+"."+n.Obj().Name()]
+}
+
+// pureFuncCall: result of calling a value of a pure named func type: uninterpreted functions of
+// (function identity, arguments).
+func (x *Exec) pureFuncCall(fv *Value, t types.Type, args []*Value, resT types.Type) *Value {
+	n := t.(*types.Named)
+	name := n.Obj().Pkg().Name() + "." + n.Obj().Name()
+	x.trusted["values of func type "+name+" are pure, deterministic functions of their arguments"] = true
+	ts := []*Term{fv.Term}
+	for _, a := range args {
+		ts = append(ts, leafTerms(a)...)
+	}
+	if resT == nil {
+		return nil
+	}
+	i := 0
+	v := buildValue(resT, func(l Leaf) *Term {
+		r := x.ctx.App(fmt.Sprintf("ft$%s$%d", sanitize(name), i), l.Sort, ts...)
+		i++
+		return r
+	})
+	x.facts = append(x.facts, x.typeInv(v))
+	x.boundRefs(v, x.allocNow())
+	return v
+}
+
+// ifaceCallSiteObligations: "calls Iface.Method P" / "calls Method P" clauses at interface method calls.
+func (x *Exec) ifaceCallSiteObligations(fr *Frame, st *State, recv *Value, m *types.Func, args []*Value, pos token.Pos) {
+	if x.rootFrame == nil || x.rootFrame.contract == nil {
+		return
+	}
+	full := shortType(recv.T) + "." + m.Name()
+	root := x.rootFrame
+	for _, cc := range root.contract.Calls {
+		if cc.Callee != full && cc.Callee != m.Name() {
+			continue
+		}
+		vars := map[string]*Value{}
+		for i, p := range root.fn.Params {
+			vars[p.Name()] = root.params[i]
+		}
+		sig := m.Type().(*types.Signature)
+		for i := 0; i < sig.Params().Len() && i < len(args); i++ {
+			if n := sig.Params().At(i).Name(); n != "" {
+				vars[n] = args[i]
+			}
+			vars[fmt.Sprintf("arg%d", i)] = args[i]
+		}
+		vars["recv"] = recv
+		env := &SpecEnv{x: x, vars: vars, cur: st, old: root.entry, pkg: x.pkgOfFn(root.fn)}
+		t := x.guardedEval(func() *Term { return env.evalBool(cc.C.E) }, root.contract, cc.C)
+		lbl := cc.C.Label
+		if lbl == "" {
+			lbl = m.Name()
+		}
+		x.oblige(root, st, "calls", "", lbl, t, pos, cc.C.Src)
+	}
+	if x.calledCells != nil {
+		for _, k := range []string{full, m.Name()} {
+			if c, ok := x.calledCells[k]; ok {
+				st.cells[c] = scalar(tBool, True)
+				x.cellsW[c] = true
+			}
 		}
 	}
 }
